@@ -120,6 +120,11 @@ class C08(F.Check):
                     k = F.Kernel("c08_%s_%s" % (nm, tag), rt, ar, body, key=key, family="float_" + nm)
                     ks.append(k)
                     names[nm] = k.name
+                for nm, op in (("fsl", "< 0"), ("fse", "== 0"), ("fsg", "> 0")):
+                    k = F.Kernel("c08_%s_%s" % (nm, tag), "bool", args, "return (%s <=> %s) %s;" % (a, b, op), key=key,
+                                 family="float_spaceship", std="c++20")
+                    ks.append(k)
+                    names[nm] = k.name
                 self.finst.append((r1, r2, cr, k1, k2, names, tag, key))
         return ks
 
@@ -228,6 +233,14 @@ class C08(F.Check):
                 obs.append(F.Ob("%s:%s" % (nm, tag), [("x", T.BV(w1)), ("y", T.BV(w2))], fnp, key=key, routes=F.FP_ROUTES,
                                 kernels=[names[nm], names["c1"], names["c2"]],
                                 note="comparison == raw comparison of the operands scaled to the common unit"))
+            for nm, pred in (("fsl", "olt"), ("fse", "oeq"), ("fsg", "ogt")):
+                def fns(K, x, y, nm=nm, pred=pred, names=names, fc=fc):
+                    e = K[names[nm]](x, y)
+                    a_, b_ = K[names["c1"]](x), K[names["c2"]](y)
+                    return T.TRUE, T.and_(T.not_(e.ub), T.eq(e.ret, T.fp_cmp(pred, fc, a_.ret, b_.ret)))
+                obs.append(F.Ob("%s:%s" % (nm, tag), [("x", T.BV(w1)), ("y", T.BV(w2))], fns, key=key, routes=F.FP_ROUTES,
+                                kernels=[names[nm], names["c1"], names["c2"]],
+                                note="C++20 (a <=> b) <0 / ==0 / >0 equals the IEEE <, ==, > of the scaled operands (partial order: NaN unordered, -0 == +0)"))
             for nm, op in (("fadd", "add"), ("fsub", "sub")):
                 def fna(K, x, y, nm=nm, op=op, names=names, fc=fc):
                     e = K[names[nm]](x, y)
